@@ -7,8 +7,11 @@ Open Scope N_scope.
 
 (* one Rotor query: a shred index and the relay each (virtual) instance sent it to; None = the call panicked *)
 Definition rquery := (N * list (option N))%type.
-(* one Turbine observation: own id, root the instance sent to, children it forwarded to; None = panicked *)
-Definition tobs := (N * option (N * list N))%type.
+(* Turbine observations for one own id: what each independently constructed instance with that own id - and
+   the same instance asked again - reported for the triple (root it sent to, children it forwarded to; None =
+   panicked).  The instances were asked the triples of the case in different orders (slice 1 before slice 0,
+   interleaved, after other slots), so a tree cached under the wrong key shows up as a disagreement. *)
+Definition tobs := (N * list (option (N * list N)))%type.
 (* one shred of a loss-free run: shred index, deliveries in FIFO order, number of non-empty send_to_many calls *)
 Definition rshred := (N * list N * N)%type.
 
@@ -21,8 +24,10 @@ Inductive c16case :=
 (* Turbine instances with the given fanout: per (slot, slice, shred) the observations; complete = one
    observation for every validator *)
 | C16Turbine (id : N) (stakes : list N) (fanout : N) (complete : bool) (trees : list (N * N * N * list tobs))
-(* loss-free run on the recording network: proto 0 = Rotor::new, 1 = Turbine with `fanout`, 2 = trivial *)
-| C16Run (id : N) (stakes : list N) (proto fanout : N) (slot slice : N) (shreds : list rshred).
+(* loss-free run of real Alpenglow nodes (receive path = consensus.rs handle_disseminator_shred) over the
+   recording network: proto 0 = Rotor::new, 1 = Turbine with `fanout`, 2 = trivial, 3 = Rotor::new_fa1;
+   stored = the validators whose blockstore holds every shred of the slice when the network is quiet *)
+| C16Run (id : N) (stakes : list N) (proto fanout : N) (slot slice : N) (stored : list N) (shreds : list rshred).
 
 Definition list_eqb (a b : list N) : bool :=
   Nat.eqb (length a) (length b) && forallb (fun '(x, y) => x =? y) (combine a b).
@@ -98,26 +103,35 @@ Definition run_turbine_tree (id : N) (stakes : list N) (fanout : N) (complete : 
   let '(slot, slice, shred, obs) := t in
   let n := length stakes in
   let order := turbine_order (stdrng (turbine_blocks n)) stakes slot (index_in_slot slice shred) in
+  let view_eqb (a b : option (N * list N)) : bool :=
+    match a, b with
+    | Some (r1, c1), Some (r2, c2) => (r1 =? r2) && list_eqb c1 c2
+    | None, None => true
+    | _, _ => false
+    end in
+  let first_view (l : list (option (N * list N))) : option (N * list N) := match l with v :: _ => v | [] => None end in
   let mism :=
     match order with
     | Ok ord _ =>
-      negb (forallb (fun '(own, o) =>
-              match tree_of_order ord fanout own, o with
+      negb (forallb (fun '(own, views) =>
+              match tree_of_order ord fanout own, first_view views with
               | Some t, Some (root, ch) => (t_root t =? root) && list_eqb (t_children t) ch
               | None, None => true
               | _, _ => false
               end) obs)
     | _ => true
     end in
-  (* the property on the observations alone: one root for everybody; with complete observations, the
-     root together with all children lists is every validator exactly once *)
-  let roots := map (fun '(_, o) => match o with Some (r, _) => Some r | None => None end) obs in
-  let agree := all_equal roots && forallb (fun o => match o with Some _ => true | None => false end) roots in
+  (* the property on the observations alone: every instance with the same own id reports the same view of
+     the tree whatever it was asked before; one root for everybody; with complete observations, the root
+     together with all children lists is every validator exactly once *)
+  let same_views := forallb (fun '(_, views) => forallb (view_eqb (first_view views)) views) obs in
+  let roots := map (fun '(_, views) => match first_view views with Some (r, _) => Some r | None => None end) obs in
+  let agree := same_views && all_equal roots && forallb (fun o => match o with Some _ => true | None => false end) roots in
   let covered :=
     if complete then
       match first_some roots with
       | Some r =>
-        let reached := r :: flat_map (fun '(_, o) => match o with Some (_, ch) => ch | None => [] end) obs in
+        let reached := r :: flat_map (fun '(_, views) => match first_view views with Some (_, ch) => ch | None => [] end) obs in
         Nat.eqb (length reached) n && forallb (fun v => count_occ_N reached v =? 1) (seqN 0 n)
       | None => false
       end
@@ -132,13 +146,13 @@ Fixpoint run_turbine_trees (id : N) (stakes : list N) (fanout : N) (complete : b
   end.
 
 (* ---------------- loss-free runs ---------------- *)
-Definition run_shred (id : N) (stakes : list N) (proto fanout slot slice : N) (sh : rshred) : list (N * N * N) :=
+Definition run_shred (id : N) (stakes : list N) (proto fanout slot slice : N) (stored : list N) (sh : rshred) : list (N * N * N) :=
   let '(shred, deliveries, broadcasts) := sh in
   let n := lenN stakes in
   let leader := leader_of n slot in
   let expected :=
-    if proto =? 0 then
-      match rotor_new stakes with
+    if (proto =? 0) || (proto =? 3) then
+      match (if proto =? 0 then rotor_new stakes else rotor_new_fa1 stakes) with
       | COk sm => match rotor_relay (stdrng rotor_blocks) sm slot slice shred with
                   | RRelay relay => rotor_run n leader relay
                   | _ => None
@@ -152,14 +166,15 @@ Definition run_shred (id : N) (stakes : list N) (proto fanout slot slice : N) (s
       end
     else trivial_run n in
   let mism := match expected with Some e => negb (list_eqb e deliveries) | None => true end in
-  (* every validator other than the leader holds the shred after the run, received exactly once; the leader
-     at most once; under Rotor at most one node broadcast *)
+  (* every validator other than the leader received the shred exactly once and holds the whole slice in its
+     blockstore after the run; the leader at most once (Rotor) / exactly once; under Rotor at most one node broadcast *)
   let ok :=
-    forallb (fun v => if (v =? leader) && negb (proto =? 1) && negb (proto =? 2)
+    forallb (fun v => if (v =? leader) && ((proto =? 0) || (proto =? 3))
                       then count_occ_N deliveries v <=? 1
-                      else count_occ_N deliveries v =? 1) (seqN 0 (N.to_nat n))
+                      else (count_occ_N deliveries v =? 1) && ((v =? leader) || existsb (N.eqb v) stored))
+            (seqN 0 (N.to_nat n))
     && forallb (fun v => v <? n) deliveries
-    && (if proto =? 0 then broadcasts <=? 1 else true) in
+    && (if (proto =? 0) || (proto =? 3) then broadcasts <=? 1 else true) in
   emit id (shred + 1) mism (negb ok).
 
 Definition run_c16 (c : c16case) : list (N * N * N) :=
@@ -173,7 +188,7 @@ Definition run_c16 (c : c16case) : list (N * N * N) :=
     emit id 0 (negb (Bool.eqb any_panic model_panics)) (any_panic && positive_set stakes)
     ++ run_rotor_slices id stakes fa1 1 slices
   | C16Turbine id stakes fanout complete trees => run_turbine_trees id stakes fanout complete 1 trees
-  | C16Run id stakes proto fanout slot slice shreds =>
-    flat_map (run_shred id stakes proto fanout slot slice) shreds
+  | C16Run id stakes proto fanout slot slice stored shreds =>
+    flat_map (run_shred id stakes proto fanout slot slice stored) shreds
   end.
 Definition c16_run (cs : list c16case) : list (N * N * N) := flat_map run_c16 cs.
